@@ -270,6 +270,8 @@ def case_key(case):
 def err_kind(e):
     if isinstance(e, AssertionError):
         return "err:assert"
+    if isinstance(e, ZeroDivisionError):
+        return "err:zerodiv"
     if isinstance(e, ValueError):
         return "err:value"
     if isinstance(e, (IndexError, KeyError)):
